@@ -25,7 +25,8 @@ static double now_s()
 // ---------------------------------------------------------------- check registry
 struct SimWeight {
         const char *sim;
-        int weight;
+        int weight;        // share of the randomly assigned runs; < 0: no share but a quota of -weight run indices (4x in thorough)
+        int thorough_quota = 0; // additional quota of run indices in the thorough tier only (expensive workloads)
 };
 struct CheckDef {
         const char *prop;
@@ -40,7 +41,7 @@ struct CheckDef {
 };
 
 static std::vector<CheckDef> g_checks = {
-        { "C01", "exploration", { { "hashmgr", 5 }, { "l2mgr", 1 } }, 30000, 3000000, 50, 900, false, false,
+        { "C01", "exploration", { { "hashmgr", 5 }, { "l2mgr", 1 }, { "hashendure", 0, 28 } }, 30000, 3000000, 50, 900, false, false,
           "cases: seeded plans (algorithm x family x client count x segmentation x submit/flush/restart interleaving); "
           "distinct_nontrivial: distinct manager states reached, state = hash(algorithm, family, |in flight|, sorted remaining-block buckets "
           "of in-flight jobs, #idle, #complete clients, last op kind) at which at least one job was in flight",
@@ -159,18 +160,21 @@ static const char *pick_sim(const CheckDef &cd, uint64_t seed_i, uint64_t i, boo
         uint64_t base = 10;
         int totw = 0;
         for (auto &sw : cd.sims) {
-                if (sw.weight < 0) {
-                        uint64_t q = (uint64_t) (-sw.weight) * (thorough ? 4 : 1);
-                        if (i < base + q)
-                                return sw.sim;
-                        base += q;
-                } else
+                uint64_t q = 0;
+                if (sw.weight < 0)
+                        q = (uint64_t) (-sw.weight) * (thorough ? 4 : 1);
+                else
                         totw += sw.weight;
+                if (thorough)
+                        q += (uint64_t) sw.thorough_quota;
+                if (i < base + q)
+                        return sw.sim;
+                base += q;
         }
         Rng pick(seed_i, "simpick");
         int x = (int) pick.below(totw);
         for (auto &sw : cd.sims) {
-                if (sw.weight < 0)
+                if (sw.weight <= 0)
                         continue;
                 if (x < sw.weight)
                         return sw.sim;
@@ -202,6 +206,8 @@ static Sim *get_sim(const std::string &n)
                 s = make_hashlong_sim();
         else if (n == "hashgiant")
                 s = make_hashgiant_sim();
+        else if (n == "hashendure")
+                s = make_hashendure_sim();
         else if (n == "l2mgr")
                 s = make_l2mgr_sim();
         else if (n == "stream")
